@@ -591,6 +591,9 @@ func (x *gen) leaf() int {
 			}
 		}
 		n.Arg = string(r.Pick(x.o.Alphabet))
+		if x.o.Trims && r.Chance(1, 12) {
+			n.Arg = []string{"\n", " "}[r.Intn(2)] // a terminal that consumes whitespace itself
+		}
 	}
 	x.g.Nodes = append(x.g.Nodes, n)
 	return len(x.g.Nodes) - 1
@@ -1088,4 +1091,36 @@ func (g *Grammar) translit(from byte, to string) {
 			n.Arg = strings.Replace(n.Arg, string(from), to, -1)
 		}
 	}
+}
+
+// stretchWs replaces one whitespace run of an input (if it has one) by a long or a
+// multi-line one: 256-400 blanks, blank lines, or a long run with new lines in it.
+func stretchWs(r *Rand, in string) string {
+	isWs := func(b byte) bool { return b == ' ' || b == '\t' || b == '\n' }
+	var starts []int
+	for i := 0; i < len(in); i++ {
+		if isWs(in[i]) && (i == 0 || !isWs(in[i-1])) {
+			starts = append(starts, i)
+		}
+	}
+	if len(starts) == 0 {
+		return in
+	}
+	s := starts[r.Intn(len(starts))]
+	e := s
+	for e < len(in) && isWs(in[e]) {
+		e++
+	}
+	var run string
+	switch r.Intn(4) {
+	case 0:
+		run = strings.Repeat(" ", r.Range(254, 400))
+	case 1:
+		run = []string{"\n\n", "\n \n ", " \n\n", "\n\n\n", "\n\t\n"}[r.Intn(5)]
+	case 2:
+		run = strings.Repeat(" ", r.Range(100, 300)) + "\n" + strings.Repeat("\t", r.Range(1, 200))
+	default:
+		run = strings.Repeat(" \t", r.Range(128, 160))
+	}
+	return in[:s] + run + in[e:]
 }
